@@ -259,6 +259,11 @@ def rule_writers(ctx):
     allowed = {C.ALPHA_BETA: {"insert"}, C.ALPHA_BETA_START: {"insert"}, "bench::bench": {"clear"}}
     for k, ms in sorted(writers.items()):
         ctx.functions.add(k)
+        # emptying the cache cannot plant a wrong bound or a value of an aborted search, whoever does it (whether it may race
+        # with a running search is C16.no-race's question)
+        if ms == {"clear"} and k not in allowed:
+            ctx.ok("writer:%s" % k, "%s only clears the cache" % C.short(k), ix.bodies[k].where(0))
+            continue
         ctx.check(k in allowed and ms <= allowed[k], "writer:%s" % k,
                   "%s writes the cache with {%s} (confirmed by reading; guarded by C13.guard / clear only)" % (C.short(k), ",".join(sorted(ms))),
                   ix.bodies[k].where(0),
